@@ -172,6 +172,17 @@ impl MemoryManager {
     }
 }
 
+impl Drop for MemoryManager {
+    fn drop(&mut self) {
+        // Nobody can hold a reference any more: release what was still queued
+        if let Ok(waiting) = self.wait_to_free.get_mut() {
+            for val in waiting.drain(..) {
+                val.delete();
+            }
+        }
+    }
+}
+
 impl Drop for MemoryManagerInner {
     fn drop(&mut self) {
         for val in self.tofree.drain(..) {
